@@ -382,6 +382,30 @@ func c02Middleware(p *Program, r *Report) {
 // c02ClosureErr: ctor is called in f or inside a closure of f (the callback of a body-reader wrapper); its error
 // must reach a nil test in f whose non-nil edge reaches no ctx.Next(): directly, or through the local variable
 // the closure stores it into.
+// refusesByAssumption: with the loaded error assumed non-nil, no Next() is reachable from the load (the error is
+// handed back through merged results of helpers and tested by their caller).
+func refusesByAssumption(f *ssa.Function, ld ssa.Value, nexts []ssa.CallInstruction) bool {
+	in, ok := ld.(ssa.Instruction)
+	if !ok || len(nexts) == 0 {
+		return false
+	}
+	var assumed []ssa.Value
+	for _, a := range append(aliasesOf(ld), ld) {
+		assumeTruth.Store(a, 1)
+		assumed = append(assumed, a)
+	}
+	reach := reachable(f, in.Block(), nil)
+	for _, a := range assumed {
+		assumeTruth.Delete(a)
+	}
+	for _, nx := range nexts {
+		if reach[nx.Block()] {
+			return false
+		}
+	}
+	return true
+}
+
 func c02ClosureErr(p *Program, r *Report, f *ssa.Function, ctor string) {
 	key := fnName(f) + "/" + ctor + ":error-tested"
 	found := false
@@ -483,7 +507,7 @@ func c02ClosureErr(p *Program, r *Report, f *ssa.Function, ctor string) {
 						continue
 					}
 					for _, cref := range *cell.Referrers() {
-						if ld, isLd := cref.(*ssa.UnOp); isLd && ld.Op == token.MUL && refuses(ld) {
+						if ld, isLd := cref.(*ssa.UnOp); isLd && ld.Op == token.MUL && (refuses(ld) || refusesByAssumption(f, ld, nexts)) {
 							ok = true
 						}
 					}
